@@ -497,7 +497,10 @@ def task_concrete():
 
 def tasks(tier):
     return [('contracts.c13', n, {}) for n in ('task_std_getter', 'task_setters', 'task_assign_then_read', 'task_add_noise', 'task_misfit', 'task_to_dict_select', 'task_concrete')] \
-        + [('contracts.c13_select', 'task_select_by_name', {})]
+        + [('contracts.c13_select', 'task_select_by_name', {})] \
+        + [('contracts.c12', 'task_op', dict(op=o)) for o in ('misfit', 'clean_computed', 'clean_all', 'model_update')]
+    # (closure: the misfit belongs to the standard deviation set NOW only if the weights a misfit evaluation leaves in the survey data go away with
+    #  every clean -- C12's `leaves_the_plain_state`)
 
 
 LEVEL = ('Control-executor proof over the real source of the Survey noise model and Simulation.misfit with abstract xarray objects: '
